@@ -463,17 +463,23 @@ def h_project_grid_antialias(ctx):
     del stubs.DELAUNAY_LOG[:]
     del stubs.ORACLE_LOG[:]
     sh = tuple(cfg["shape"])
-    x0, y0 = ctx.real("x0"), ctx.real("y0")
-    dx, dy = ctx.real("dx"), ctx.real("dy")
-    ctx.assume(dx > 0)
-    ctx.assume(dy > 0)
+    if cfg.get("geometry"):
+        # bound: concrete grid geometry and projection offsets (which block every cell falls in is then decided
+        # without forking); the values stay symbolic
+        # (dyadic values: doubles carry them, and everything computed from them here, exactly)
+        x0, y0, dx, dy, b, d = (float(Fraction(v)) for v in cfg["geometry"])
+    else:
+        x0, y0 = ctx.real("x0"), ctx.real("y0")
+        dx, dy = ctx.real("dx"), ctx.real("dy")
+        ctx.assume(dx > 0)
+        ctx.assume(dy > 0)
+        b, d = ctx.real("pb"), ctx.real("pd")
     east = np.array([x0 + j * dx for j in range(sh[1])], dtype=object if ctx.sym else float)
     north = np.array([y0 + i * dy for i in range(sh[0])], dtype=object if ctx.sym else float)
     vals = ctx.reals("v", sh)
     grid = xr.DataArray(vals, coords={"northing": north, "easting": east}, dims=("northing", "easting"), name="field")
     a, c = Fraction(cfg["proj"][0]), Fraction(cfg["proj"][1])
-    b, d = ctx.real("pb"), ctx.real("pd")
-    if not ctx.sym:
+    if not ctx.sym or cfg.get("geometry"):
         a, c = float(a), float(c)
 
     def projection(e, n):
@@ -533,8 +539,8 @@ HARNESSES = [
     Harness(
         "project_grid_antialias",
         h_project_grid_antialias,
-        lambda tier, seed: [{"shape": (3, 3), "proj": ("2", "3")}] if tier == "thorough" else [],
-        bounds="thorough tier only: 3x3 symbolic grid, affine projection, method='linear', antialias=True (real BlockReduce with block_split by the C08 contract), hull oracle fixed to 'inside'",
+        lambda tier, seed: [{"shape": (3, 3), "proj": ("2", "3"), "geometry": ("1/2", "-3", "3/2", "2", "7", "-1")}] if tier == "thorough" else [],
+        bounds="thorough tier only (about 5 minutes): 3x3 grid with concrete geometry (origin, steps, projection offsets) and symbolic values, affine projection, method='linear', antialias=True (real BlockReduce with block_split by the C08 contract), hull oracle fixed to 'inside'",
         stubs=["LinearNDInterpolator -> uninterpreted with f(p_i) = v_i and min(values) <= f <= max(values)", "block_split -> C08 contract", "Delaunay -> oracle"],
         extra_globals=_aa_globals,
         engine={"oneshot": True, "keyed_sqrt": True, "sqrt_pos_axiom": True, "div_elim": True, "timeout_ms": 60000},
